@@ -10,6 +10,12 @@ def S(x):
     return ("str", x)
 
 
+def VAL(k):
+    """what the locale has under key k: an ordinary translation, and - under `b` - the empty string, which is a translation
+    too (only an absent key or an explicit null falls back to another locale)"""
+    return C("Literal", C("String", S("" if k == "b" else "text of " + k), ("int", 0)))
+
+
 def run(ctx, default_to, suppress, locale_keys=("b", "c"), default_keys=("a", "b")):
     """(result, log) of merging a locale with the given keys against the default key set; log: list of
     ("warn", kind, locale) / ("insert", key, value) / ("merge", receiver, default_to argument, key info)"""
@@ -17,7 +23,7 @@ def run(ctx, default_to, suppress, locale_keys=("b", "c"), default_keys=("a", "b
     if fn is None:
         return None, None
     log = []
-    this = CF("Locale", keys=L(*[T(S(k), A("v" + k)) for k in locale_keys]), name=S("grp"), top_locale_name=S("fr"))
+    this = CF("Locale", keys=L(*[T(S(k), VAL(k)) for k in locale_keys]), name=S("grp"), top_locale_name=S("fr"))
     keys = CF("BuildersKeysInner", **{"0": L(*[T(S(k), A("k" + k)) for k in default_keys])})
 
     def entry(rv, a):
@@ -75,7 +81,7 @@ def expected(default_to, suppress, locale_keys, default_keys):
             log.append(("insert", S(k), C("Default")))
             log.append(("merge", C("Default"), default_to, A("k" + k)))
         else:
-            log.append(("merge", A("v" + k), default_to, A("k" + k)))
+            log.append(("merge", VAL(k), default_to, A("k" + k)))
     if not suppress:
         for k in locale_keys:
             if k not in default_keys:
